@@ -52,9 +52,9 @@ theorem archive_writes_in_own_output (fs : FS) (cwd : Str) (ps : List PluginResp
     ((∀ o m, (o, m) ∈ bs → ∃ p ∈ ps, o = absPath cwd p.out) ∧ (bkeys bs).Nodup) ∧
     (∀ o m, (o, m) ∈ bs → ∀ k ∈ m.keys,
       (∃ p ∈ ps, absPath cwd p.out = o ∧
-        ∃ f ∈ p.files, f.insertionPoint = [] ∧ validatePath f.name = .ok k) ∨
+        ∃ f ∈ p.files, f.getIP = [] ∧ validatePath f.getName = .ok k) ∨
       (outKind o = .jar ∧ k = manifestKey)) ∧
-    (∀ p ∈ ps, ∀ f ∈ p.files, ∃ k, validatePath f.name = .ok k ∧ HasKey bs (absPath cwd p.out) k) ∧
+    (∀ p ∈ ps, ∀ f ∈ p.files, ∃ k, validatePath f.getName = .ok k ∧ HasKey bs (absPath cwd p.out) k) ∧
     (∀ p ∈ ps, outKind (absPath cwd p.out) ≠ .dir →
       ∃ m, Obj.archive (absPath cwd p.out) m ∈ flushedA bs) := by
   unfold runResponsesA at h
@@ -95,10 +95,10 @@ theorem duplicate_in_archive_is_error (fs : FS) (cwd : Str) (ps : List PluginRes
     jar starts with its manifest. -/
 example :
     runResponsesA [("/w/gen".toList, true)] "/w".toList
-      [⟨"gen".toList, [⟨"a.txt".toList, [], "one".toList⟩]⟩,
-       ⟨"gen/a.zip".toList, [⟨"x/y.go".toList, [], "two".toList⟩]⟩,
-       ⟨"gen/b.jar".toList, [⟨"z.go".toList, [], "three".toList⟩]⟩,
-       ⟨"./gen//a.zip".toList, [⟨"q.go".toList, [], "four".toList⟩]⟩] =
+      [⟨"gen".toList, [rf "a.txt".toList [] ("one".toList)]⟩,
+       ⟨"gen/a.zip".toList, [rf "x/y.go".toList [] ("two".toList)]⟩,
+       ⟨"gen/b.jar".toList, [rf "z.go".toList [] ("three".toList)]⟩,
+       ⟨"./gen//a.zip".toList, [rf "q.go".toList [] ("four".toList)]⟩] =
       .ok [("/w/gen".toList, [("a.txt".toList, "one")]),
            ("/w/gen/a.zip".toList, [("q.go".toList, "four"), ("x/y.go".toList, "two")]),
            ("/w/gen/b.jar".toList, [("z.go".toList, "three"), (manifestKey, manifestContent)])] := by decide
@@ -106,22 +106,22 @@ example :
 /-- The same name returned twice into one archive (two spellings of the archive): duplicate. -/
 example :
     runResponsesA [("/w/gen".toList, true)] "/w".toList
-      [⟨"gen/a.zip".toList, [⟨"x/y.go".toList, [], "one".toList⟩]⟩,
-       ⟨"/w/gen/sub/../a.zip".toList, [⟨"x//y.go".toList, [], "two".toList⟩]⟩] =
+      [⟨"gen/a.zip".toList, [rf "x/y.go".toList [] ("one".toList)]⟩,
+       ⟨"/w/gen/sub/../a.zip".toList, [rf "x//y.go".toList [] ("two".toList)]⟩] =
       .error (.gen .duplicate) := by decide
 
 /-- ... but the same name in two DIFFERENT archives of one directory is fine. -/
 example :
     runResponsesA [("/w/gen".toList, true)] "/w".toList
-      [⟨"gen/a.zip".toList, [⟨"x.go".toList, [], "one".toList⟩]⟩,
-       ⟨"gen/b.zip".toList, [⟨"x.go".toList, [], "two".toList⟩]⟩] =
+      [⟨"gen/a.zip".toList, [rf "x.go".toList [] ("one".toList)]⟩,
+       ⟨"gen/b.zip".toList, [rf "x.go".toList [] ("two".toList)]⟩] =
       .ok [("/w/gen/a.zip".toList, [("x.go".toList, "one")]),
            ("/w/gen/b.zip".toList, [("x.go".toList, "two")])] := by decide
 
 /-- As coded: an archive whose parent directory does not exist fails the run (the directory is
     created, the stat error is returned all the same); a parent that is a file likewise. -/
 example :
-    runResponsesA [] "/w".toList [⟨"new/x.zip".toList, [⟨"a".toList, [], "1".toList⟩]⟩] = .error .parentMissing ∧
+    runResponsesA [] "/w".toList [⟨"new/x.zip".toList, [rf "a".toList [] ("1".toList)]⟩] = .error .parentMissing ∧
     runResponsesA [("/w/f.txt".toList, false)] "/w".toList [⟨"f.txt/x.zip".toList, []⟩] = .error .parentNotDir := by
   constructor <;> decide
 
